@@ -135,6 +135,32 @@ def run(tier, replay=None):
                         res.violation("C04 %s with %d ranks: %s (found by the focused search after the correspondence broke: %s)" % (ee, P, why, " ".join(diffs[0][2:])[:200]),
                                       {"kind": "mpi", "P": P, "entry": ee, "pseed": ps, "n": c[0], "edges": c[1], "scale": c[2], "why": why})
                         return res.finish()
+        # third stage: OTHER communicator sizes and dense graphs (the all-vertices branch) whose lightest odd cycles sit on three
+        # vertices at the end or at the start of the numbering — work that a wrong slice arithmetic leaves to nobody
+        for e in [t[0] for t in targets[:2]]:
+            for P2 in (6, 7, 8):
+                fb = {}
+                for t in range(30):
+                    n = r.randint(9, 12)
+                    light = set(range(n - 3, n)) if t % 2 == 0 else set(range(3))
+                    WE = []
+                    for x in range(n):
+                        for y in range(x + 1, n):
+                            w = r.randint(1, 5) if (x in light and y in light) else r.randint(200, 400)
+                            WE.append((x, y, w) if r.random() < .5 else (y, x, w))
+                    r.shuffle(WE)
+                    fb["d%d" % t] = ((n, WE, 0, "focused-dense"), e, r.getrandbits(30) + 1)
+                rcf, outf, _ = mpirun(binary, P2, "".join(render(j, c, ee, ps) for j, (c, ee, ps) in fb.items()), timeout=600)
+                bf = parse_blocks(outf)
+                for j, (c, ee, ps) in fb.items():
+                    if j not in bf: continue
+                    tried += 1
+                    why = judge(c, bf[j], P2, mcb_weight_oracle(c[0], c[1]))
+                    if why:
+                        res.coverage["focused_search_runs"] = tried
+                        res.violation("C04 %s with %d ranks: %s (found by the focused search after the correspondence broke: %s)" % (ee, P2, why, " ".join(diffs[0][2:])[:200]),
+                                      {"kind": "mpi", "P": P2, "entry": ee, "pseed": ps, "n": c[0], "edges": c[1], "scale": c[2], "why": why})
+                        return res.finish()
         res.coverage["focused_search_runs"] = tried
         res.violation("trace validation of the MPI runs broken (Model/Mpi.lean, Model/DePina.lean vs mpi/*.hpp); the oracle still holds on all %d runs" % nruns,
                       {"kind": "correspondence", "first": diffs[:3], "validated": len(oks)}, found=False)
